@@ -26,9 +26,13 @@ use chain::Env;
 use model::{Alphabet, Model, Op, Step};
 use oracle::{Amt, Chg, Conf, Entry, Lattice, LockPol, Pools, Rcpt, Req};
 
+fn try_env() -> Result<&'static Env, String> {
+    static ENV: OnceLock<Result<Env, String>> = OnceLock::new();
+    ENV.get_or_init(Env::build).as_ref().map_err(|e| e.clone())
+}
+
 fn env() -> &'static Env {
-    static ENV: OnceLock<Env> = OnceLock::new();
-    ENV.get_or_init(Env::build)
+    try_env().unwrap_or_else(|e| mc_core::machinery_error(&format!("C08 environment: {e}")))
 }
 
 fn lock_req(entry: Entry, amt: u64, rcpt: Rcpt, conf: Conf, lockpol: LockPol, pools: Pools, lock: (u8, u32)) -> Req {
@@ -182,6 +186,9 @@ fn check_case(start: usize, ops: &[Op], req: Option<&Req>, level: usize) -> Resu
 }
 
 pub fn replay(kind: &str, case: &Value) -> Result<(), String> {
+    if kind == "setup" {
+        return try_env().map(|_| ());
+    }
     if kind != "state" {
         return Err(format!("unknown kind {kind}"));
     }
@@ -577,7 +584,15 @@ pub fn run(args: &Args) -> i32 {
     let run = Run::new(args, "model_checking");
     let (sps, wall_cap_s) = searches(args.tier);
     let t0 = Instant::now();
-    let env = env();
+    let env = match try_env() {
+        Ok(e) => e,
+        Err(msg) => {
+            // the proposals from which the pending transactions are built are themselves unsound
+            run.not_exhaustive();
+            run.fail("setup", "setup:scratch-proposal".into(), msg, json!({}));
+            return run.finish(&replay);
+        }
+    };
     let t_setup = t0.elapsed().as_secs_f64();
     if std::env::var("VERIF_PROGRESS").is_ok() {
         eprintln!("setup {t_setup:.1}s");
